@@ -195,7 +195,11 @@ class Fill(CellModifierInput):
         for i in self._axis_range(0):
             for j in self._axis_range(1):
                 for k in self._axis_range(2):
-                    val = next(words)
+                    val = next(words, None)
+                    if val is None:
+                        raise ValueError(
+                            f"The fill gives fewer universes than its limits ask for. Input: {value.format()}"
+                        )
                     if not isinstance(val, syntax_node.ValueNode) or val.value is None:
                         raise ValueError(
                             f"Values provided must be valid universes. {val} given."
